@@ -321,3 +321,214 @@ func lenAtLeast(p *Program, fi *FuncInfo, at ast.Node, x ast.Expr, need ast.Expr
 	d.noteTerm(need)
 	return d.le(nt, nk+needK, lt, lk)
 }
+
+// ---------------------------------------------------------------------------
+// Relational preconditions: an obligation inside a helper whose operands are the helper's own parameters /
+// receiver fields (f.buf[:n] in a `consume(n)` helper) is the helper's precondition; it is discharged when every
+// static call site establishes it with the actual arguments.
+
+type leConstraint struct {
+	lo  ast.Expr // nil: 0
+	lok int
+	hi  ast.Expr // nil: 0
+	hik int
+	txt string
+}
+
+func boundsConstraints(ob BoundsOb) []leConstraint {
+	var out []leConstraint
+	switch x := ob.Node.(type) {
+	case *ast.IndexExpr:
+		out = append(out, leConstraint{nil, 0, x.Index, 0, "0 <= " + exprStr(x.Index)})
+		out = append(out, leConstraint{x.Index, 1, lenCall(x.X), 0, exprStr(x.Index) + " < len(" + exprStr(x.X) + ")"})
+	case *ast.SliceExpr:
+		if x.Slice3 {
+			return nil
+		}
+		lenX := lenCall(x.X)
+		if x.Low != nil {
+			out = append(out, leConstraint{nil, 0, x.Low, 0, "0 <= " + exprStr(x.Low)})
+		}
+		if x.High != nil {
+			out = append(out, leConstraint{x.High, 0, lenX, 0, exprStr(x.High) + " <= len(" + exprStr(x.X) + ")"})
+			if x.Low != nil {
+				out = append(out, leConstraint{x.Low, 0, x.High, 0, exprStr(x.Low) + " <= " + exprStr(x.High)})
+			} else {
+				out = append(out, leConstraint{nil, 0, x.High, 0, "0 <= " + exprStr(x.High)})
+			}
+		} else if x.Low != nil {
+			out = append(out, leConstraint{x.Low, 0, lenX, 0, exprStr(x.Low) + " <= len(" + exprStr(x.X) + ")"})
+		}
+	}
+	return out
+}
+
+var intZero = &ast.BasicLit{Kind: token.INT, Value: "0"}
+
+func (d *dbm) proves(c leConstraint) bool {
+	lo, hi := c.lo, c.hi
+	if lo == nil {
+		lo = intZero
+	}
+	if hi == nil {
+		hi = intZero
+	}
+	if c.lo == nil && c.lok == 0 && c.hik == 0 && d.nonNeg(hi) {
+		return true
+	}
+	if l, isLen := ast.Unparen(hi).(*ast.CallExpr); isLen && exprStr(l.Fun) == "len" && len(l.Args) == 1 {
+		d.noteLen(l.Args[0])
+	}
+	return d.leExpr(lo, c.lok, hi, c.hik)
+}
+
+func dischargeAtCallSitesRel(p *Program, ob BoundsOb) (bool, string) {
+	if _, inLit := p.enclosingFuncNode(ob.Node).(*ast.FuncLit); inLit {
+		return false, ""
+	}
+	cons := boundsConstraints(ob)
+	if len(cons) == 0 {
+		return false, ""
+	}
+	info := ob.Fn.Pkg.TypesInfo
+	g := p.GraphOf(ob.Fn)
+	f, reach := g.GuardFacts().Before(ob.Node)
+	if !reach {
+		return true, "unreachable"
+	}
+	d := newDBM(g, f, assumedFacts[ob.Fn.Name])
+	var open []leConstraint
+	for _, c := range cons {
+		if !d.proves(c) {
+			open = append(open, c)
+		}
+	}
+	if len(open) == 0 {
+		return true, "from dominating guards"
+	}
+	params := p.stableParams(ob.Fn)
+	// the operands must still have their entry values: no store to a mentioned field before the obligation
+	for _, c := range open {
+		for _, e := range []ast.Expr{c.lo, c.hi} {
+			if e == nil {
+				continue
+			}
+			if !p.onlyParams(info, e, params) {
+				return false, ""
+			}
+			stale := false
+			ast.Inspect(ob.Fn.Decl.Body, func(n ast.Node) bool {
+				if as, ok := n.(*ast.AssignStmt); ok && as.End() <= ob.Node.Pos() {
+					for _, l := range as.Lhs {
+						if ls := exprStr(l); mentions(exprStr(e), ls) {
+							stale = true
+						}
+					}
+				}
+				return true
+			})
+			if stale {
+				return false, ""
+			}
+		}
+	}
+	nsites := 0
+	bad := ""
+	scope, _ := decodeScope(p, nil)
+	for _, caller := range p.SortedFuncs() {
+		// callers outside the decode scope (helpers only the tests use) do not handle network data
+		if caller.Decl.Body == nil || !scope[caller] {
+			continue
+		}
+		cinfo := caller.Pkg.TypesInfo
+		ast.Inspect(caller.Decl.Body, func(n ast.Node) bool {
+			c, ok := n.(*ast.CallExpr)
+			if !ok {
+				return true
+			}
+			fn := calleeOf(cinfo, c)
+			if fn == nil || p.FuncOf(fn) != ob.Fn {
+				return true
+			}
+			nsites++
+			cg := p.GraphOf(caller)
+			if lit, ok := p.enclosingFuncNode(c).(*ast.FuncLit); ok {
+				cg = p.GraphOfLit(caller, lit)
+			}
+			cf, creach := cg.GuardFacts().Before(p.stmtOf(c, caller))
+			if !creach {
+				return true
+			}
+			cd := newDBM(cg, cf, assumedFacts[caller.Name])
+			sub := p.callSubst(ob.Fn, c)
+			for _, oc := range open {
+				sc := oc
+				if oc.lo != nil {
+					sc.lo = substParamsExpr(info, oc.lo, sub)
+				}
+				if oc.hi != nil {
+					sc.hi = substParamsExpr(info, oc.hi, sub)
+				}
+				if !cd.proves(sc) {
+					bad = fmt.Sprintf("call site %s in %s does not establish %s", p.Pos(c), caller.Name, oc.txt)
+				}
+			}
+			return true
+		})
+	}
+	// a method value / function value use of the helper escapes the call-site enumeration
+	if p.usedAsValue(ob.Fn) {
+		return false, ob.Fn.Name + " is also used as a function value"
+	}
+	if bad != "" {
+		return false, bad
+	}
+	if nsites == 0 {
+		return false, "no static call site establishes the precondition"
+	}
+	var txt []string
+	for _, c := range open {
+		txt = append(txt, c.txt)
+	}
+	return true, fmt.Sprintf("precondition %s established at all %d call sites", strings.Join(txt, " and "), nsites)
+}
+
+// usedAsValue: fi is referenced other than as the function of a call.
+func (p *Program) usedAsValue(fi *FuncInfo) bool {
+	used := false
+	for _, other := range p.SortedFuncs() {
+		if other.Decl.Body == nil || used {
+			continue
+		}
+		oinfo := other.Pkg.TypesInfo
+		calls := map[ast.Expr]bool{}
+		ast.Inspect(other.Decl.Body, func(n ast.Node) bool {
+			if c, ok := n.(*ast.CallExpr); ok {
+				calls[ast.Unparen(c.Fun)] = true
+			}
+			return true
+		})
+		ast.Inspect(other.Decl.Body, func(n ast.Node) bool {
+			switch x := n.(type) {
+			case *ast.SelectorExpr:
+				if oinfo.Uses[x.Sel] == fi.Obj && !calls[x] {
+					used = true
+				}
+				return true
+			case *ast.Ident:
+				if oinfo.Uses[x] == fi.Obj && !calls[x] {
+					// the Sel of a selector call is visited too: skip when its parent selector is the call's Fun
+					if sel, ok := p.Parent(x).(*ast.SelectorExpr); ok && sel.Sel == x && calls[sel] {
+						return true
+					}
+					if _, ok := p.Parent(x).(*ast.SelectorExpr); ok {
+						return true
+					}
+					used = true
+				}
+			}
+			return true
+		})
+	}
+	return used
+}
